@@ -16,7 +16,6 @@ import (
 
 	"golang.org/x/tools/go/packages"
 	"golang.org/x/tools/go/ssa"
-	"golang.org/x/tools/go/ssa/ssautil"
 )
 
 type Program struct {
@@ -46,7 +45,8 @@ func relName(f *ssa.Function) string {
 
 func loadPackages(dir string, overlay map[string][]byte) (*packages.Package, error) {
 	cfg := &packages.Config{
-		Mode:       packages.LoadAllSyntax,
+		Mode: packages.NeedName | packages.NeedFiles | packages.NeedCompiledGoFiles | packages.NeedImports |
+			packages.NeedTypes | packages.NeedSyntax | packages.NeedTypesInfo | packages.NeedTypesSizes,
 		Dir:        dir,
 		BuildFlags: []string{"-tags=verif"},
 		Overlay:    overlay,
@@ -70,11 +70,30 @@ func loadPackages(dir string, overlay map[string][]byte) (*packages.Package, err
 	return p, nil
 }
 
-func buildSSA(p *packages.Package) (*ssa.Program, *ssa.Package) {
-	prog, spkgs := ssautil.AllPackages([]*packages.Package{p}, ssa.InstantiateGenerics)
-	prog.Build()
-	return prog, spkgs[0]
+func buildSSAFrom(fset *token.FileSet, pkg *types.Package, files []*ast.File, info *types.Info) (*ssa.Program, *ssa.Package) {
+	prog := ssa.NewProgram(fset, ssa.InstantiateGenerics)
+	seen := map[*types.Package]bool{}
+	var createAll func(pkgs []*types.Package)
+	createAll = func(pkgs []*types.Package) {
+		for _, p := range pkgs {
+			if !seen[p] {
+				seen[p] = true
+				if prog.Package(p) == nil {
+					prog.CreatePackage(p, nil, nil, true)
+				}
+				createAll(p.Imports())
+			}
+		}
+	}
+	createAll(pkg.Imports())
+	sp := prog.CreatePackage(pkg, files, info, false)
+	sp.Build()
+	return prog, sp
 }
+
+type importerFunc func(path string) (*types.Package, error)
+
+func (f importerFunc) Import(path string) (*types.Package, error) { return f(path) }
 
 func collectFuncs(sp *ssa.Package) map[string]*ssa.Function {
 	out := map[string]*ssa.Function{}
@@ -146,19 +165,50 @@ func LoadProgram(dir string) (*Program, error) {
 		return nil, fmt.Errorf("contracts: %v", err)
 	}
 	pr.Contracts = cs
-	_, sp1 := buildSSA(p1)
+	_, sp1 := buildSSAFrom(p1.Fset, p1.Types, p1.Syntax, p1.TypesInfo)
 	funcs1 := collectFuncs(sp1)
 	src, undec := generateGhost(p1, funcs1, cs)
 	pr.Undecided = undec
 	pr.GhostSrc = src
 	ghostPath := filepath.Join(dir, ghostFileName)
-	p2, err := loadPackages(dir, map[string][]byte{ghostPath: []byte(src)})
+	gf, err := parser.ParseFile(p1.Fset, ghostPath, src, parser.ParseComments)
 	if err != nil {
-		return pr, fmt.Errorf("ghost file does not type-check against the current tree: %v", err)
+		return pr, fmt.Errorf("generated ghost file does not parse: %v", err)
 	}
-	pr.Pkg = p2
-	pr.Fset = p2.Fset
-	pr.Prog, pr.SSA = buildSSA(p2)
+	files := append(append([]*ast.File{}, p1.Syntax...), gf)
+	var terrs []string
+	conf := types.Config{
+		Sizes: p1.TypesSizes,
+		Importer: importerFunc(func(path string) (*types.Package, error) {
+			if path == "unsafe" {
+				return types.Unsafe, nil
+			}
+			if q, ok := p1.Imports[path]; ok && q.Types != nil {
+				return q.Types, nil
+			}
+			return nil, fmt.Errorf("package %s not loaded", path)
+		}),
+		Error: func(err error) { terrs = append(terrs, err.Error()) },
+	}
+	info := &types.Info{
+		Types: map[ast.Expr]types.TypeAndValue{}, Defs: map[*ast.Ident]types.Object{}, Uses: map[*ast.Ident]types.Object{},
+		Implicits: map[ast.Node]types.Object{}, Instances: map[*ast.Ident]types.Instance{}, Scopes: map[ast.Node]*types.Scope{},
+		Selections: map[*ast.SelectorExpr]*types.Selection{}, FileVersions: map[*ast.File]string{},
+	}
+	tpkg, _ := conf.Check(p1.PkgPath, p1.Fset, files, info)
+	if len(terrs) > 0 {
+		if len(terrs) > 8 {
+			terrs = terrs[:8]
+		}
+		return pr, fmt.Errorf("ghost file does not type-check against the current tree: %s", strings.Join(terrs, "; "))
+	}
+	p2 := *p1
+	p2.Types = tpkg
+	p2.TypesInfo = info
+	p2.Syntax = files
+	pr.Pkg = &p2
+	pr.Fset = p1.Fset
+	pr.Prog, pr.SSA = buildSSAFrom(p1.Fset, tpkg, files, info)
 	pr.Funcs = collectFuncs(pr.SSA)
 	return pr, nil
 }
